@@ -548,7 +548,7 @@ class Resolver:
                 nm = (cur[3] if len(cur) > 3 else cur[1]).split('::')[-1]
                 arg = cur[2][1] if len(cur[2]) > 1 else None
                 chain.append((nm, arg))
-                if nm == 'map' and arg is not None and arg[0] == 'closure' and arg[1] in self.P.fns:
+                if nm in ('map', 'filter_map') and arg is not None and arg[0] == 'closure' and arg[1] in self.P.fns:
                     c = self.P.fns[arg[1]]
                     out = c.locals[0]['ty']
                     if 'TokenStream' in out:
